@@ -118,7 +118,9 @@ fn build(rc: &mut RunCtx, fmt: Fmt, binding: Binding, shape: Shape, variant: u64
             "redactions": [uri],
             "assertions": [
                 { "label": "c2pa.actions", "data": { "actions": [
-                    { "action": "c2pa.redacted", "reason": "c2pa.PII.present", "parameters": { "redacted": uri } } ] } }
+                    { "action": "c2pa.redacted", "reason": "c2pa.PII.present", "parameters": { "redacted": uri } } ] } },
+                // the same label (and instance) as the assertion it redacts in the parent
+                { "label": "org.sim.note", "data": { "note": "c02-redacting" } }
             ]
         });
         b = Builder::from_shared_context(&ctx).with_definition(def).map_err(|e| err_kind(&e))?;
